@@ -2,7 +2,7 @@
 import itertools
 
 from .. import gen
-from ..common import cnat, cz, cbool, clist, copt, coq_eval
+from ..common import cnat, cz, cbool, clist, copt, safe_coq_eval
 from ..impl import Impl
 
 GEN_FILES = ['Routing.v']
@@ -83,7 +83,9 @@ def run(ctx, scratch):
                     source_col=src_impl(rng, source_col), transpose=transpose, force_bipartite=fb)
         expr = 'get_distances %s %s %s %s %s %s' % (pmat(nrow, ncol, edges), src_lit(source), src_lit(source_row),
                                                     src_lit(source_col), cbool(transpose), cbool(fb))
-        cases.append(('dist', fam, args, expr, None))
+        plain = nrow == ncol and source is not None and source_row is None and source_col is None and not fb and \
+            all(s < nrow for s in source)
+        cases.append(('dist', fam, args, expr, ('dist', nrow, edges, source, transpose) if plain else None))
 
     def add_sp(fam, nrow, ncol, edges, source=None, source_row=None, source_col=None, fb=False):
         args = dict(m=mspec(nrow, ncol, edges, rng=rng), source=src_impl(rng, source), source_row=src_impl(rng, source_row),
@@ -91,7 +93,9 @@ def run(ctx, scratch):
         expr = 'get_shortest_path false true %s %s %s %s %s' % (  # the routing the property demands (the binding the code uses is the obligation shortest_path_routing)
             
             pmat(nrow, ncol, edges), src_lit(source), src_lit(source_row), src_lit(source_col), cbool(fb))
-        cases.append(('sp', fam, args, expr, None))
+        plain = nrow == ncol and source is not None and source_row is None and source_col is None and not fb and \
+            all(s < nrow for s in source)
+        cases.append(('sp', fam, args, expr, ('sp', nrow, edges, source, False) if plain else None))
 
     def add_dag(fam, n, edges, order):
         args = dict(m=mspec(n, n, edges, rng=rng), order=order)
@@ -175,15 +179,21 @@ def run(ctx, scratch):
     # ---- run the model inside Coq
     kinds = {'dist': conv_dist, 'sp': conv_graph, 'dag': conv_graph}
     model = [None] * len(cases)
+    model_dead = set()
     for kind in kinds:
         idx = [i for i, c in enumerate(cases) if c[0] == kind]
-        vals = coq_eval('c10' + kind, ['Base.Util', 'Model.Bfs', 'Gen.Routing'], [cases[i][3] for i in idx])
+        vals = safe_coq_eval(ctx, 'c10' + kind, ['Base.Util', 'Model.Bfs', 'Gen.Routing'], [cases[i][3] for i in idx])
+        if vals is None:
+            # the model (or the generated routing term) no longer evaluates: recorded in ctx.proof_broken; the plain cases
+            # (square adjacency, `source` only) are then judged by the textbook definition evaluated in Python (_plain_spec)
+            model_dead.add(kind)
+            continue
         for i, v in zip(idx, vals):
             model[i] = kinds[kind](v)
     # ---- run the implementation and diff
     fn = {'dist': 'distances', 'sp': 'shortest_path', 'dag': 'dag'}
     with Impl(scratch) as impl:
-        for i, (kind, fam, args, expr, _) in enumerate(cases):
+        for i, (kind, fam, args, expr, meta) in enumerate(cases):
             r = impl.call('c10', fn[kind], args, timeout=20)
             ctx.traces += 1
             nontrivial = len(args['m']['coo']) > 0 and not fam.startswith('malformed')
@@ -192,7 +202,13 @@ def run(ctx, scratch):
             got = canon_impl(r)
             if 'ok' in got and kind in ('sp', 'dag'):
                 got = {'ok': sorted(tuple(e) for e in got['ok']['edges'])}
-            if got != exp:
+            if kind in model_dead:
+                exp = _plain_spec(meta) if meta is not None else None
+                if exp is not None and got != exp:
+                    ctx.violation('get_' + {'dist': 'distances', 'sp': 'shortest_path'}[kind],
+                                  'implementation differs from the definition evaluated in Python (%s)' % fam,
+                                  case=args, expected=exp, observed=got, kind=kind, family=fam, check='python_spec')
+            elif got != exp:
                 ctx.violation('get_' + {'dist': 'distances', 'sp': 'shortest_path', 'dag': 'dag'}[kind],
                               'implementation differs from the proved-exact model (%s)' % fam,
                               case=args, expected=exp, observed=got, kind=kind, family=fam)
@@ -218,6 +234,17 @@ def run(ctx, scratch):
                 'build; distinct by hash of (entry point, arguments); non-trivial = at least one edge and not malformed')
     ctx.assumptions = ['sources are non-negative indices (negative indices wrap in NumPy and are outside the model)',
                        'matrices have no explicitly stored zeros']
+
+
+def _plain_spec(meta):
+    """Hop distances from a source set / the shortest-path DAG on a square adjacency matrix, by definition (used only when
+    the Coq model is dead).  transpose=True: distances TO the sources, i.e. in the reversed graph."""
+    what, n, E, S, transpose = meta
+    E = sorted(set((j, i) for (i, j) in E)) if transpose else sorted(set(E))
+    dist = _bfs(n, E, S)
+    if what == 'dist':
+        return {'ok': {'all': dist}}
+    return {'ok': sorted((i, j) for (i, j) in E if dist[i] >= 0 and dist[j] == dist[i] + 1)}
 
 
 def _bfs(n, E, S):
